@@ -17,12 +17,12 @@ for c, d in C19_CASES.items():
 # ---------------------------------------------------------------- intrusive free lists, one inductive step per operation
 FL_OPS = {1: 'allocate', 2: 'deallocate', 3: 'allocate_n', 4: 'deallocate_n', 5: 'insert', 6: 'ctor',
           7: 'move_ctor', 8: 'move_assign', 9: 'swap', 10: 'roundtrip_n', 11: 'double_free'}
-FL_PROPS = {1: ['C01', 'C02', 'C16', 'C17'], 2: ['C01', 'C04', 'C16', 'C17'], 3: ['C01', 'C02', 'C04', 'C17'], 4: ['C01', 'C04', 'C16'],
+FL_PROPS = {1: ['C01', 'C02', 'C16', 'C17'], 2: ['C01', 'C04', 'C16', 'C17'], 3: ['C01', 'C02', 'C04', 'C17'], 4: ['C01', 'C04', 'C16', 'C17'],
             5: ['C01', 'C02', 'C04', 'C18'], 6: ['C01', 'C18'], 7: ['C12'], 8: ['C12'], 9: ['C12'], 10: ['C04', 'C18'], 11: ['C16']}
 def ns_split(n): return ('ns%d' % n, n, ['NS_MIN=%d' % n, 'NS_MAX=%d' % n])
 NS_SPLITS_QUICK = [ns_split(8), ns_split(12)]
 NS_SPLITS_MORE = [ns_split(n) for n in (9, 16)]
-NS_SPLITS_THOROUGH = [ns_split(n) for n in (10, 11, 13, 14, 15, 20, 24)]
+NS_SPLITS_THOROUGH = [ns_split(n) for n in (10, 24)]
 
 def fl_jobs(kind, kname, op, config, tier, splits, nb=3, nb2=0, timeout=300, extra_def=(), two_obj=None, lays=None):
   if lays is None: lays = ((0, 0),) if kind == 1 else (((0, 0), (1, 0)) if nb2 == 0 else ((0, 0), (1, 1), (2, 0), (3, 1)))
@@ -43,10 +43,11 @@ for kind, kname in ((1, 'free_memory_list'), (2, 'ordered_free_memory_list')):
         fl_jobs(kind, kname, op, 'release', 'quick', NS_SPLITS_QUICK)
         fl_jobs(kind, kname, op, 'release', 'thorough', NS_SPLITS_MORE + NS_SPLITS_THOROUGH)
         fl_jobs(kind, kname, op, 'baseline', 'thorough', NS_SPLITS_QUICK + NS_SPLITS_MORE, timeout=900)
-        fl_jobs(kind, kname, op, 'debug8', 'thorough', NS_SPLITS_QUICK, timeout=900)
-        fl_jobs(kind, kname, op, 'release', 'thorough', NS_SPLITS_QUICK, nb=2, nb2=2, timeout=1800)
+        fl_jobs(kind, kname, op, 'debug8', 'thorough', NS_SPLITS_QUICK[:1], timeout=900)
+        if op in (3, 4): fl_jobs(kind, kname, op, 'release', 'thorough', NS_SPLITS_QUICK[:1], nb=2, nb2=2, timeout=1800)
     for op in (1, 2):     # fill patterns (C17) and no-false-report (C16) in the pinned configuration
         fl_jobs(kind, kname, op, 'baseline', 'quick', NS_SPLITS_QUICK)
+    fl_jobs(kind, kname, 4, 'baseline', 'quick', NS_SPLITS_QUICK[1:], lays=((0, 0),))     # array release: fill over all n bytes (n not a node multiple)
     fl_jobs(kind, kname, 10, 'release', 'thorough', NS_SPLITS_QUICK + NS_SPLITS_MORE, timeout=1800)
     fl_jobs(kind, kname, 5, 'release', 'quick', NS_SPLITS_QUICK, nb=2, nb2=2)
     fl_jobs(kind, kname, 5, 'baseline', 'thorough', NS_SPLITS_QUICK + NS_SPLITS_MORE, nb=2, nb2=2, timeout=900)
@@ -57,8 +58,8 @@ for op in (1, 2):
 for kind, kname in ((1, 'free_memory_list'), (2, 'ordered_free_memory_list')):
     fl_jobs(kind, kname, 3, 'release', 'quick', NS_SPLITS_QUICK[:1], nb=4, lays=((0, 0),))
     fl_jobs(kind, kname, 4, 'release', 'quick', NS_SPLITS_QUICK[:1], nb=4, lays=((1, 0),))
-    fl_jobs(kind, kname, 3, 'release', 'thorough', NS_SPLITS_QUICK + NS_SPLITS_MORE, nb=5, timeout=1800)
-    fl_jobs(kind, kname, 4, 'release', 'thorough', NS_SPLITS_QUICK + NS_SPLITS_MORE, nb=5, timeout=1800)
+    fl_jobs(kind, kname, 3, 'release', 'thorough', NS_SPLITS_QUICK, nb=5, timeout=1800, lays=((0, 0),))
+    fl_jobs(kind, kname, 4, 'release', 'thorough', NS_SPLITS_QUICK, nb=5, timeout=1800, lays=((0, 0),))
 # double free detection exists only for the ordered list in double-dealloc-check builds
 fl_jobs(2, 'ordered_free_memory_list', 11, 'check', 'quick', NS_SPLITS_QUICK, extra_def=['HANDLER_STOPS'])
 fl_jobs(2, 'ordered_free_memory_list', 11, 'debug8', 'thorough', NS_SPLITS_QUICK + NS_SPLITS_MORE, extra_def=['HANDLER_STOPS'], timeout=900)
@@ -66,9 +67,9 @@ for op in (1, 2, 3, 4):
     fl_jobs(2, 'ordered_free_memory_list', op, 'check', 'quick', NS_SPLITS_QUICK[:1])
 
 # ---------------------------------------------------------------- small_free_memory_list
-SFL_OPS = {1: 'allocate', 2: 'deallocate', 5: 'insert', 6: 'ctor', 7: 'move_ctor', 8: 'move_assign', 9: 'swap',
+SFL_OPS = {14: 'insert_multi', 1: 'allocate', 2: 'deallocate', 5: 'insert', 6: 'ctor', 7: 'move_ctor', 8: 'move_assign', 9: 'swap',
            11: 'bad_outside', 12: 'bad_stride', 13: 'bad_double'}
-SFL_PROPS = {1: ['C01', 'C02', 'C16', 'C17'], 2: ['C01', 'C04', 'C16', 'C17'], 5: ['C01', 'C02'], 6: ['C01'], 7: ['C12'], 8: ['C12'], 9: ['C12'],
+SFL_PROPS = {14: ['C01', 'C04', 'C18'], 1: ['C01', 'C02', 'C16', 'C17'], 2: ['C01', 'C04', 'C16', 'C17'], 5: ['C01', 'C02'], 6: ['C01'], 7: ['C12'], 8: ['C12'], 9: ['C12'],
              11: ['C16'], 12: ['C16'], 13: ['C16']}
 def sfl_jobs(op, config, tier, nss, timeout=400, lays=((0, 0), (1, 1), (2, 0))):
     for ns in nss:
@@ -80,18 +81,18 @@ def sfl_jobs(op, config, tier, nss, timeout=400, lays=((0, 0), (1, 1), (2, 0))):
                 bounds='<=2 chunks of <=3 nodes, arbitrary free chains, cache pointers anywhere on the ring, node size %d, layout %d (objects below/between/above the chunks), chunk gap %d' % (ns, lay, gap))
 for op in (1, 2, 6, 7, 8, 9):
     sfl_jobs(op, 'release', 'quick', (3,), lays=((1, 0),))
-    sfl_jobs(op, 'release', 'thorough', (1, 2, 4, 8))
-    sfl_jobs(op, 'baseline', 'thorough', (1, 2, 3, 4), timeout=1200)
+    sfl_jobs(op, 'release', 'thorough', (1, 4))
+    sfl_jobs(op, 'baseline', 'thorough', (1, 3), timeout=1200, lays=((1, 0),))
 for op in (1, 2):
     sfl_jobs(op, 'baseline', 'quick', (3,), lays=((0, 0), (2, 0)))
     sfl_jobs(op, 'baseline', 'quick', (1,), lays=((1, 1),))
 sfl_jobs(5, 'release', 'quick', (3,), timeout=600, lays=((1, 0),))
-sfl_jobs(5, 'release', 'thorough', (1, 2, 4), timeout=1800)
+sfl_jobs(5, 'release', 'thorough', (1,), timeout=1800)
 for op in (11, 12):
     sfl_jobs(op, 'baseline', 'quick', (3,))
-    sfl_jobs(op, 'baseline', 'thorough', (1, 2, 4), timeout=1200)
+    sfl_jobs(op, 'baseline', 'thorough', (1,), timeout=1200)
 sfl_jobs(13, 'check', 'quick', (3,), lays=((1, 0),))
-sfl_jobs(13, 'debug8', 'thorough', (1, 2, 3, 4), timeout=1200)
+sfl_jobs(13, 'debug8', 'thorough', (1, 3), timeout=1200, lays=((1, 0),))
 
 # ---------------------------------------------------------------- C18 (a): min_block_size of the small list vs the real insert()
 SFL_INSERT = 'F__ZN9foonathan6memory6detail22small_free_memory_list6insertEPvm'
@@ -105,8 +106,8 @@ def c18_sfl(ns, k, tier):
 for ns in (1, 2, 3, 5, 8, 451):
     for k in (1, 2, 8):
         c18_sfl(ns, k, 'quick')
-for ns in list(range(1, 33)) + [63, 64, 65, 127, 128, 129, 255, 256, 257, 451, 511, 512]:
-    for k in range(1, 9):
+for ns in list(range(1, 17)) + [63, 64, 65, 451, 511, 512]:
+    for k in (1, 2, 3, 8):
         if not (ns in (1, 2, 3, 5, 8, 451) and k in (1, 2, 8)):
             c18_sfl(ns, k, 'thorough')
 
@@ -130,8 +131,8 @@ for n in (1, 2, 3, 5):
 for n in (1, 2, 3, 4, 5):
     for op in range(1, 9):
         it_jobs(n, op, 'release', 'thorough', bmax=96, smax=40, timeout=1200)
-        it_jobs(n, op, 'debug8', 'thorough', bmax=96, smax=24, timeout=1800)
-        if n in (2, 4): it_jobs(n, op, 'baseline', 'thorough', timeout=1200)
+        if n == 3: it_jobs(n, op, 'debug8', 'thorough', bmax=64, smax=24, timeout=1800)
+        if n == 4: it_jobs(n, op, 'baseline', 'thorough', timeout=1200)
 
 # ---------------------------------------------------------------- memory_stack / arena steps
 MS_OPS = {1: 'ctor', 2: 'allocate', 3: 'try_allocate', 4: 'unwind', 5: 'shrink_to_fit', 6: 'dtor', 7: 'move_ctor', 8: 'move_assign',
@@ -289,8 +290,13 @@ for kind in CONT:
     for seq in CONT_QUICK: cont_job(kind, seq, 2, 'quick')
     for a in range(8):
         for b in range(8):
-            if (a, b) not in CONT_QUICK: cont_job(kind, (a, b), 2, 'thorough', 3000, 24 if (a, b) in CONT_BIG or 4 in (a, b) or 7 in (a, b) else 8)
-    for seq in ((0, 0, 4), (0, 1, 6), (0, 5, 0), (1, 7, 2), (0, 0, 5), (1, 6, 3)): cont_job(kind, seq, 3, 'thorough', 3000, 24)
+            if (a, b) in CONT_QUICK: continue
+            if kind != 'vec' and (a + b) % 4 != 0: continue          # all pairs for vector, a quarter of them for the node containers
+            if 4 in (a, b) or 7 in (a, b):
+                if (a, b) in CONT_BIG[:4]: cont_job(kind, (a, b), 2, 'thorough', 3000, 24)     # copy assignment needs far more memory: four representative pairs
+                continue
+            cont_job(kind, (a, b), 2, 'thorough', 1800, 8)
+    for seq in ((0, 1, 6), (0, 5, 0), (0, 0, 5)): cont_job(kind, seq, 3, 'thorough', 3000, 16)
 
 # ---------------------------------------------------------------- C19: bucket selection through the real free_list_array
 for fla, lg, mx, minel, hs, tier in (('node_log2', 1, 4096, 8, 512, 'quick'), ('node_id', 0, 24, 8, 512, 'quick'), ('ord_log2', 1, 1024, 8, 512, 'thorough'),
@@ -304,3 +310,14 @@ for grp, cfg in (('lowlevel', 'baseline'), ('temp', 'release')):
     add('c13-atomics-%s' % grp, ['C13'], grp, 'll_step.c', config=cfg, static_audit='atomics', threads=2 if grp == 'temp' else 1, witness=False,
         desc='syntactic audit of the linked LLVM IR: every load/store of the global leak counters, the handler pointers and the temporary stack list head is an atomic instruction',
         bounds='all instructions of the linked module (not a solver query)')
+
+# a block with a full 255-node chunk plus a remainder chunk, inserted into an empty list / below / above an existing chunk
+for ns in (1, 3):
+    for have in (0, 1, 2):
+        for krem in (1, 3):
+            add('sfl-insert_multi-release-ns%d-h%d-k%d' % (ns, have, krem), SFL_PROPS[14], 'freelist', 'sfl_step.c', config='release',
+                defines=['OP=14', 'NS_MIN=%d' % ns, 'NS_MAX=%d' % ns, 'HAVE=%d' % have, 'KREM=%d' % krem, 'IR_PHANTOM', 'IR_PHANTOM_ANYORDER', 'HEAP_SIZE=256'],
+                unwind=8, unwindset=['ph_find.0:13', 'F__ZN9foonathan6memory6detail22small_free_memory_list6insertEPvm.0:257', 'F__ZN9foonathan6memory6detail22small_free_memory_list6insertEPvm.3:257'],
+                timeout=3000, tier='thorough', mem_gb=16,
+                desc='small_free_memory_list::insert of a block that yields two chunks (255 + %d nodes), %s' % (krem, ('into an empty list', 'above an existing chunk', 'below an existing chunk')[have]),
+                bounds='node size %d; the existing 3-node chunk has a symbolic free chain, cache pointers symbolic; placement constant' % ns)
